@@ -65,7 +65,7 @@ def scripts(tier):
     if tier == "thorough":
         alphabet = ["P", "R10", "R12", "C", "T"]
         seen = set(S)
-        for n in (3, 4, 5):
+        for n in (3, 4):
             for p in itertools.product(alphabet, repeat=n):
                 s = ",".join(p) + ",T,P,P,T"
                 if s not in seen and "P" in p:
